@@ -164,6 +164,20 @@ def cmd_check(prop, tier, seed):
                 print('  minimised to %d plan lines in %d re-executions; replay: bin/check replay %s'
                       % (res['plan_lines'], res['shrink_runs'], res['path']))
             sys.stdout.flush()
+    # the committed regression plans of repaired defects (seeded/R*): a defect that returns is reported from its own plan
+    from . import regress
+    exes = {(t['engine'], t['config']): t['exe'] for t in totals}
+    back, nreg = regress.replay(prop, exes, load_engine, known, slow=(tier != 'quick'))
+    for e, sig_, det_ in back:
+        if sig_ in reported:
+            continue
+        reported.add(sig_)
+        nviol += 1
+        print('VIOLATION property=%s replay=%s' % (prop, os.path.join(regress.ROOT, e['plan'])))
+        print('  signature: %s' % sig_)
+        print('  detail: a repaired defect is back (regression plan %s): %s' % (e['plan'], det_[:1200].replace('\n', '\n    ')))
+    print('[%s] %d regression plans of repaired defects replayed, %d violate again' % (prop, nreg, len(back)))
+    sys.stdout.flush()
     # every listed (unrepaired) finding of this property that the sampled runs did not happen to meet is replayed
     # from its committed plan, so that the list of KNOWN-FINDING lines does not depend on the seed
     for e in known:
